@@ -94,6 +94,21 @@ func newEval(c *core.Ctx) *eval.Evaluator {
 	if evalTrace != nil {
 		*evalTrace = append(*evalTrace, ev)
 	}
+	// harnesses write and read struct fields flat (`pair.F["ref"]`); where the repository declares such a field in an
+	// embedded struct, the values are pushed down before the call and lifted up afterwards
+	ev.PreCall = func(args []eval.Value) {
+		seen := map[*eval.StructVal]bool{}
+		for _, a := range args {
+			pushDownEmbedded(a, seen)
+		}
+	}
+	ev.PostCall = func(args []eval.Value, res eval.Value) {
+		seen := map[*eval.StructVal]bool{}
+		for _, a := range args {
+			liftEmbedded(a, seen)
+		}
+		liftEmbedded(res, seen)
+	}
 	if evalStepBudget > 0 {
 		ev.MaxSteps = evalStepBudget
 	}
@@ -569,4 +584,114 @@ func adaptArgs(c *core.Ctx, fn *types.Func, args []eval.Value) ([]eval.Value, er
 		h.fill(left[0].v)
 	}
 	return out, nil
+}
+
+// embeddedFields lists the embedded struct fields of a struct type (by field name).
+func embeddedFields(t types.Type) []*types.Var {
+	if t == nil {
+		return nil
+	}
+	if p, ok := t.Underlying().(*types.Pointer); ok {
+		t = p.Elem()
+	}
+	st, ok := t.Underlying().(*types.Struct)
+	if !ok {
+		return nil
+	}
+	var out []*types.Var
+	for i := 0; i < st.NumFields(); i++ {
+		if f := st.Field(i); f.Embedded() {
+			if _, isStruct := derefType(f.Type()).Underlying().(*types.Struct); isStruct {
+				out = append(out, f)
+			}
+		}
+	}
+	return out
+}
+
+func declaresField(t types.Type, name string) bool {
+	st, ok := derefType(t).Underlying().(*types.Struct)
+	if !ok {
+		return false
+	}
+	for i := 0; i < st.NumFields(); i++ {
+		if st.Field(i).Name() == name {
+			return true
+		}
+	}
+	return false
+}
+
+func walkValues(v eval.Value, visit func(sv *eval.StructVal)) {
+	switch x := v.(type) {
+	case *eval.StructVal:
+		visit(x)
+	case *eval.Ref:
+		walkValues(x.Get(), visit)
+	case *eval.ChanVal:
+		for _, e := range x.Feed {
+			walkValues(e, visit)
+		}
+		for _, e := range x.Sent {
+			walkValues(e, visit)
+		}
+	case eval.Slice:
+		for _, e := range x.Elems() {
+			walkValues(e, visit)
+		}
+	case eval.Tuple:
+		for _, e := range x {
+			walkValues(e, visit)
+		}
+	}
+}
+
+// pushDownEmbedded moves a flat key that the struct's type declares in an embedded struct into that struct's value.
+func pushDownEmbedded(v eval.Value, seen map[*eval.StructVal]bool) {
+	walkValues(v, func(sv *eval.StructVal) {
+		if seen[sv] {
+			return
+		}
+		seen[sv] = true
+		for _, ef := range embeddedFields(sv.T) {
+			inner, ok := sv.F[ef.Name()].(*eval.StructVal)
+			for k, val := range sv.F {
+				if k != ef.Name() && !declaresField(sv.T, k) && declaresField(ef.Type(), k) {
+					if !ok {
+						inner = &eval.StructVal{T: derefType(ef.Type()), F: map[string]eval.Value{}}
+						sv.F[ef.Name()] = inner
+						ok = true
+					}
+					inner.F[k] = val
+					delete(sv.F, k)
+				}
+			}
+		}
+		for _, val := range sv.F {
+			pushDownEmbedded(val, seen)
+		}
+	})
+}
+
+// liftEmbedded copies the fields of embedded structs up into the struct that embeds them (promoted fields), so that a
+// harness reads `res.F["qidx"]` whether or not the field has moved into an embedded struct.
+func liftEmbedded(v eval.Value, seen map[*eval.StructVal]bool) {
+	walkValues(v, func(sv *eval.StructVal) {
+		if seen[sv] {
+			return
+		}
+		seen[sv] = true
+		for _, val := range sv.F {
+			liftEmbedded(val, seen)
+		}
+		for _, ef := range embeddedFields(sv.T) {
+			if inner, ok := sv.F[ef.Name()].(*eval.StructVal); ok {
+				for k, val := range inner.F {
+					if _, clash := sv.F[k]; !clash {
+						sv.F[k] = val
+					}
+				}
+			}
+		}
+	})
 }
